@@ -258,6 +258,10 @@ func c12setup(cas c12case, recFile string) (slog.Logger, *os.File) {
 	if cas.Extra == "nilctx-ctxkeys" {
 		c12ctx = nil
 	}
+	if cas.Extra == "discard-destinations" {
+		// a silenced logger (--quiet): every destination is io.Discard; the record is unobservable, the termination is not
+		dest = io.Discard
+	}
 	mk := func(l slog.Logger) slog.Logger {
 		l.SetWriter(dest).SetErrorWriter(dest)
 		switch cas.Extra {
@@ -460,6 +464,9 @@ func c12eval(cas c12case, scratch string) (*Violation, string) {
 		// the diagnostic about the failed destination may follow the record on the healthy one
 		recOK = strings.HasSuffix(record, "\n") && strings.Count(record, c12msg) == 1
 	}
+	if cas.Extra == "discard-destinations" {
+		recOK = record == ""
+	}
 	if !admitted {
 		if record != "" {
 			return mk("not-admitted-silent", "a record was written although the call is not admitted"), ""
@@ -548,7 +555,7 @@ func c12run(c *Ctx) {
 								if c.Thorough() || n%3 == 0 {
 									// larger / rarer shapes: one Attrs argument with 200 members; a nil context on a logger with
 									// context keys; a second, failing destination
-									variants = append(variants, [3]any{-3, "", ""}, [3]any{2, "nilctx-ctxkeys", ""}, [3]any{2, "failing-writer", ""}, [3]any{2, "msg-eol", ""})
+									variants = append(variants, [3]any{-3, "", ""}, [3]any{2, "nilctx-ctxkeys", ""}, [3]any{2, "failing-writer", ""}, [3]any{2, "msg-eol", ""}, [3]any{2, "discard-destinations", ""})
 								}
 								for vi, vr := range variants {
 									cas := c12case{Entry: e.name, Sev: int(sev), NoInt: noint, IntAlw: alw, TestMode: tm, Level: int(L), Format: f, NArgs: vr[0].(int), Extra: vr[1].(string), FlagPath: vr[2].(string)}
